@@ -865,16 +865,18 @@ static char c_loader_new (char **av) { int d = ai (av, 1), w = ai (av, 2); LIB (
 	char path[512]; snprintf (path, sizeof path, "%s/%s", scratch, w == 0 ? "libtiny.so" : (w == 1 ? "no-such-lib.so" : "notlib.so"));
 	int scripted = is_armed ("dlopen");
 	PLibraryLoader *r = p_library_loader_new (path);
+	if (w == 0 && !scripted) dl_pending = 0;        /* any successful dl* call clears what dlerror() would report */
 	if (!r) { if (w == 2 && !scripted) dl_pending = 1; return 'F'; }
 	put (d, T_LOADER, r); return 'S'; }
 static char c_loader_sym (char **av) { int d = ai (av, 1); LIB (); NEED (d, T_LOADER);
+	dl_pending = 0;
 	return p_library_loader_get_symbol (S[d].p, "tiny_answer") != NULL ? 'S' : 'F'; }
 static char c_loader_err (char **av) { int d = ai (av, 1); LIB (); EMPTY (d);
 	pchar *r = p_library_loader_get_last_error (NULL);
 	int pend = dl_pending; dl_pending = 0;
 	if (!r) return pend ? 'F' : 'E';
 	put (d, T_STR, r); return 'S'; }
-static char c_loader_free (char **av) { int d = ai (av, 1); LIB (); NEED (d, T_LOADER); p_library_loader_free (S[d].p); clr (d); return 'S'; }
+static char c_loader_free (char **av) { int d = ai (av, 1); LIB (); NEED (d, T_LOADER); p_library_loader_free (S[d].p); dl_pending = 0; clr (d); return 'S'; }
 
 /* --- anonymous mappings */
 static char c_mmap_new (char **av) { int d = ai (av, 1), sz = ai (av, 2), e = ai (av, 3); LIB (); EMPTY (d); ERRARG (e, d);
@@ -1173,6 +1175,7 @@ static void counts (char *dst, size_t n, int with_text) {
 	take_snap (&s);
 	a_on = was;
 	int k = snprintf (dst, n, "live=%d fds=%d maps=%d names=%d keys=%ld", a_nlive, s.fds - base_snap.fds, s.maps - base_snap.maps, s.names - base_snap.names, w_keys);
+	if (!with_text) k += snprintf (dst + k, n - (size_t) k, " n=%ld", a_idx);       /* allocation attempts so far */
 	if (with_text) {
 		char lost[512] = ""; size_t L = 0;
 		for (int i = 0; i < a_nlive && L + 16 < sizeof lost; i++) L += (size_t) snprintf (lost + L, sizeof lost - L, "%s%ld", i ? "," : "", a_live[i].id);
@@ -1308,10 +1311,9 @@ int main (void) {
 			char cnt[4096];
 			a_on = 0;
 			counts (cnt, sizeof cnt, 1);
-			/* the same line as the model's; what is wrong, if anything, follows it */
-			{ char *extra = strstr (cnt, " badclose=");
-			  int clean = strstr (cnt, "live=0 fds=0 maps=0 names=0 keys=0 badclose=0 badfree=0") != NULL;
-			  if (extra && clean) *extra = 0; }
+			/* the same line as the model's; the details of what is left over go to stderr */
+			{ char *extra = strstr (cnt, " lost=");
+			  if (extra) { if (!strstr (cnt, "live=0 fds=0 maps=0 names=0 keys=0 badclose=0 badfree=0")) fprintf (stderr, "res harness: at end:%s\n", extra); *extra = 0; } }
 			fprintf (out, "end n=%ld closes=%ld %s\n", a_idx, w_closes, cnt);
 			names_remove ();
 			in_seq = 0;
